@@ -16,7 +16,7 @@ VERIF = os.environ.get("VF_VERIF", "/verif")
 
 def run_seed(name, jobs, tier, tmax, prop_override=None):
     prop = prop_override or name[:3]
-    wt = "/tmp/mrepo/" + name
+    wt = "/tmp/mrepo/%d-%s" % (os.getpid(), name)      # several matrix runs may be active
     subprocess.run(["git", "-C", "/repo", "worktree", "remove", "--force", wt], capture_output=True)
     os.makedirs("/tmp/mrepo", exist_ok=True)
     subprocess.run(["git", "-C", "/repo", "worktree", "add", "-q", "--detach", wt, "HEAD"], check=True)
